@@ -154,6 +154,22 @@ def panic_rule(repo, mir, reach, res, rule="PANIC"):
         else:
             keep.append(i)
     inv = keep
+    # `let Some(x) = m.get(k) else { unreachable!() }`: the lookup-that-must-succeed written with let-else -- the same access as
+    # `m.get(k).unwrap()` / `m[k]` (the panic in the else block is reclassified as an unwrap of that lookup)
+    for i in inv:
+        if i["kind"] == "panic" and not i.get("mech"):
+            f = repo.fn(i["owner"]) or repo.fn(i["fn"])
+            if f is None:
+                continue
+            for n in A.walk(f.body):
+                if n["k"] == "Local" and n.get("else") is not None and n.get("init") is not None and n["else"]["l"] <= i["line"] <= n["else"]["el"]:
+                    ini = n["init"]
+                    while ini["k"] in ("Try", "Ref", "Paren"):
+                        ini = ini["expr"]
+                    only = [x for x in A.walk(n["else"]) if x["k"] in ("Macro", "Call", "MethodCall", "Return", "Break", "Continue")]
+                    if ini["k"] == "MethodCall" and ini["method"] in ("get", "get_mut", "first", "last", "first_mut", "last_mut", "get_index", "get_index_of", "get_full") \
+                            and len(only) == 1 and only[0]["k"] == "Macro" and only[0].get("name") in ("unreachable", "panic"):
+                        i["kind"], i["producer"] = "unwrap", "letelse::" + ini["method"]
     # additions on u32/usize are discharged as a class (ARITH rule below), everything else row by row
     tabled = [i for i in inv if not i.get("mech")]
     groups = collections.Counter(group_key(i) for i in tabled)
@@ -171,7 +187,7 @@ def panic_rule(repo, mir, reach, res, rule="PANIC"):
     def access_class(k):
         if k[1] in ("index", "assert:bounds"):
             return "access"
-        if k[1] == "unwrap" and re.search(r"slice::(first|last|get)\b|::(first|last)$", k[3] or ""):
+        if k[1] == "unwrap" and re.search(r"slice::(first|last|get)\b|::(first|last)$|(HashMap|BTreeMap|IndexMap|IndexSet|Vec)\S*::(get|get_mut|get_index|get_index_of|get_full|first|last)$|^letelse::", k[3] or ""):
             return "access"
         return None
 
